@@ -14,8 +14,64 @@ func scenarioC19(rc *RunCtx) *Violation {
 	p := GenProject(g, "/p")
 	o := GenOptions(g, p)
 	o.Metafile = true
+	// never AllowOverwrite here: with the output directory inside the sources a build would
+	// replace its own inputs by bundles, and the next build's "inputs" would legitimately
+	// contain other modules' markers (false alarm found by the thorough tier, seed 101)
+	o.AllowOverwrite = false
 	if o.Inject {
 		p.Extra["src/inject.js"] = "export let injected = 'INJ';\nconsole.log('inject');\n"
+	}
+	// profile: two entry points in directories of different depth reference the same
+	// chunk (import()) and the same file-loader asset, with "[dir]" in the entry names and
+	// no public path, so that one referenced file is written with paths of different
+	// lengths into different outputs (the byte counts must follow the substituted paths)
+	if g.n(5) == 0 {
+		var shallow, deep, target, asset *Module
+		for _, m := range p.Mods {
+			if m.Deleted || !isJS(m.Kind) || m.Kind == "cjs" {
+				continue
+			}
+			depth := strings.Count(m.Path, "/")
+			switch {
+			case depth == 1 && shallow == nil:
+				shallow = m
+			case depth >= 2 && deep == nil:
+				deep = m
+			}
+		}
+		for _, m := range p.Mods {
+			if m.Deleted || m == shallow || m == deep {
+				continue
+			}
+			if isJS(m.Kind) && target == nil && !entryOf(p, m.ID) {
+				target = m
+			}
+			if m.Kind == "bin" && asset == nil {
+				asset = m
+			}
+		}
+		if shallow != nil && deep != nil && target != nil {
+			for _, e := range []*Module{shallow, deep} {
+				if !entryOf(p, e.ID) {
+					p.Entries = append(p.Entries, e.ID)
+				}
+				if !importsTarget(e, target.ID) {
+					e.Imports = append(e.Imports, Import{Target: target.ID, Style: ImpDynamic})
+				}
+				if asset != nil && !importsTarget(e, asset.ID) {
+					e.Imports = append(e.Imports, Import{Target: asset.ID, Style: ImpDefault})
+				}
+			}
+			o.Bundle = true
+			o.Format = 0
+			o.Splitting = g.chance(70)
+			o.EntryNames = []int{1, 4}[g.n(2)]
+			o.PublicPath = 0
+			o.BinLoader = 0
+			o.MinifyWS = false
+			o.LineLimit = 0
+			rc.Probe("shared_reference_from_different_depths_profile")
+		}
 	}
 	d := newDisk(g)
 	d.Gran = granChoices[g.n(len(granChoices))]
